@@ -394,6 +394,10 @@ func addSync(m map[string]Intrinsic) {
 		vm.P.interposeAtomics = args[0].(*Term).BoolVal()
 		return nil
 	}
+	m["vocab.vPreemptGoroutines"] = func(vm *VM, fn *ssa.Function, args []Value) Value {
+		vm.P.gorPreempt = constInt(vm, args[0], "vPreemptGoroutines budget")
+		return nil
+	}
 	m["vocab.vConcurrent"] = func(vm *VM, fn *ssa.Function, args []Value) Value {
 		f, _ := args[0].(*FuncV)
 		pg := &pendingGo{fn: f, label: vm.where(), tid: vm.newTid()}
